@@ -178,7 +178,12 @@ impl EventLoop {
                 self.keepalive_timeout = Some(Box::pin(time::sleep(self.mqtt_options.keep_alive)));
             }
 
-            return Ok(Event::Incoming(Packet::ConnAck(connack)));
+            // notifications generated on the previous connection and not handed out yet were
+            // received before this CONNACK: they come first
+            self.state
+                .events
+                .push_back(Event::Incoming(Packet::ConnAck(connack)));
+            return Ok(self.state.events.pop_front().unwrap());
         }
 
         match self.select().await {
